@@ -271,8 +271,16 @@ def single_edits(lines: list, splice_from: list[list] | None = None, fields: boo
     for i in range(n):
         if fields:  # contradicting statements about who belongs where, inserted after the original one
             d0, r0, fr0 = lines[i]
-            for k, g in enumerate(contradictions(fr0)):
+            cs = contradictions(fr0)
+            for k, g in enumerate(cs):
                 yield f"contra@{i}.{k}", i + 1, lines[: i + 1] + restamp([(d0, r0, g)], lines, i + 1) + lines[i + 1 :]
+            # ... and the same with the controller first answering 'no device has this role' (an empty reply is not an un-binding: the
+            # device that held the role is still there): the other device of the same type / a thermostat for the same role
+            ff0 = fr0.split(" ")
+            if cs and len(ff0[-1]) == 12:
+                empty = f"{fr0[: fr0.rfind(' ')]} {ff0[-1][:4]}7FFFFFFF"
+                for k, g in enumerate(cs[-2:]):
+                    yield f"contra-after-empty@{i}.{k}", i + 1, lines[: i + 1] + restamp([(d0, r0, empty), (d0, r0, g)], lines, i + 1) + lines[i + 1 :]
         if fields:  # index re-addressing: at the first occurrence of every (verb, code, sender type, index class) of the history
             d, r, fr = lines[i]
             ff = fr.split()
